@@ -297,7 +297,7 @@ def constructed_flush(model: Model, run: Run) -> None:
     from ..resolve import Resolver
     an = asn1_anchors(model)
     ex = an.exit_method
-    pk = an.packer
+    pk = an.packer_entry
     r = Resolver(model)
     calls = [c for c in walk_no_nested(ex.node) if isinstance(c, ast.Call) and isinstance(c.func, ast.Name) and model.resolve_name(ex.module, c.func.id) == pk.qualname]
     if len(calls) != 1:
@@ -326,7 +326,7 @@ def constructed_flush(model: Model, run: Run) -> None:
     buf = ext.most_common(1)[0][0]
     pparams = pk.node.args.posonlyargs + pk.node.args.args
     pairs = [(pparams[i], a) for i, a in enumerate(call.args) if i < len(pparams)] + [(p_, k.value) for k in call.keywords for p_ in pparams if p_.arg == k.arg]
-    run.floor("arguments of the packing routine at the flush", len(pairs), 4)
+    run.floor("arguments of the packing routine at the flush", len(pairs), 2)
     for p_, a in pairs:
         pt = r.anno(pk.module, p_.annotation)
         for o in origins(a):
@@ -334,6 +334,11 @@ def constructed_flush(model: Model, run: Run) -> None:
             if pt in (("prim", "byteslike"), ("prim", "bytes"), ("prim", "bytearray"), ("prim", "memoryview")):
                 ok = norm(o) == buf
                 why = f"the contents handed to {pk.name} are `{norm(o)[:60]}`, not the octets the write_* calls accumulated in `{buf}`"
+            elif pt[0] == "inst" and pt[1].endswith(".ASN1Tag"):
+                # the routine takes the tag as one value: it must be the stored tag itself
+                ft = r.strip_opt(r.type_of(o, ex)) if isinstance(o, ast.Attribute) else None
+                ok = isinstance(o, ast.Attribute) and norm(o).startswith("self.") and ft == pt
+                why = f"`{p_.arg}` of {pk.name} receives `{norm(o)[:60]}` instead of the tag the writer was opened with"
             else:
                 ft = r.type_of(o, ex) if isinstance(o, ast.Attribute) else None
                 src_is_tag = isinstance(o, ast.Attribute) and isinstance(o.value, ast.Attribute) and norm(o.value).startswith("self.")
